@@ -30,7 +30,7 @@ def required_cells(tier):
     for k in gen.KINDS:
         for st in ("A", "B"):
             req["kind:%s/style-%s" % (k, st)] = 40 if q else 800
-    for v in ("zero", "axis", "generic"):
+    for v in ("zero", "axis", "generic", "own-direction"):
         req["vector:" + v] = 100
     for p in ("in", "intersection", "eq-hash", "measure", "scalar-query", "there-and-back"):
         req["probe:" + p] = 200
@@ -48,6 +48,26 @@ def _rvec(rng):
     return tuple(F(rng.randint(-8, 8), rng.choice((1, 2, 4))) for _ in range(3))
 
 
+def _own_vectors(d):
+    k = d[0]
+    if k == "P":
+        return [K.mul(d[1], -1)] if d[1] != (0, 0, 0) else []
+    if k in ("L", "H"):
+        return [d[2]]
+    if k == "S":
+        return [K.sub(d[2], d[1])]
+    if k == "PL":
+        u, v = gen._plane_basis(d[2])
+        return [gen._reduce(d[2]), u, v]
+    if k == "PG":
+        vs = d[1]
+        return [K.sub(vs[1], vs[0]), K.sub(vs[2], vs[1]), gen._reduce(K.polygon_normal(vs))]
+    if k == "PH":
+        f = d[2][0]
+        return [K.sub(f[1], f[0]), K.sub(f[2], f[1]), K.sub(d[1][0], d[1][-1])]
+    return []
+
+
 def cases(rng, budget, widx, nworkers, tier):
     sm = lambda: tier == "quick" or rng.random() < 0.5      # thorough: half of the bodies from the full families (prisms, bipyramids, general hulls)
     i = widx
@@ -57,6 +77,11 @@ def cases(rng, budget, widx, nworkers, tier):
         i += 1
         d = gen.rand_obj(rng, k, small=sm())
         moves = [_rvec(rng) for _ in range(rng.randint(1, 6))]
+        # structured vectors: along / against the object's own direction, an edge, the normal, or back to the origin
+        own = _own_vectors(d)
+        for j in range(len(moves)):
+            if own and rng.random() < 0.3:
+                moves[j] = K.mul(rng.choice(own), rng.choice((1, -1, 2, F(1, 2), F(-1, 2), 3)))
         yield {"d": d, "style": style, "moves": moves, "ls": rng.getrandbits(30), "ps": rng.getrandbits(30)}
 
 
@@ -183,6 +208,8 @@ def judge(case):
         if mu.viol is not None:
             break
         mu.cell("vector:" + _vclass(v))
+        if any(K.cross(v, w) == (0, 0, 0) and v != (0, 0, 0) for w in _own_vectors(cur)):
+            mu.cell("vector:own-direction")
         _diag["steps"] += 1
         vec = G.Vector(*[float(c) for c in v])
         ret, exc, _ = M.call(lambda o, w: o.move(w), obj, vec, pure=False)
